@@ -97,9 +97,94 @@ def _simple(e) -> bool:
     return isinstance(e, ast.Attribute) and _simple(e.value)
 
 
+def _names_in(nodes) -> set:
+    return {n.id for s in nodes for n in ast.walk(s) if isinstance(n, ast.Name)}
+
+
+def _const_return(s, value) -> bool:
+    return isinstance(s, ast.Return) and isinstance(s.value, ast.Constant) and s.value.value is value
+
+
+def _loop(s):
+    """`for <name> in <it>:` without else -> (name, it, body) else None"""
+    if isinstance(s, ast.For) and not s.orelse and isinstance(s.target, ast.Name):
+        return s.target.id, s.iter, s.body
+    return None
+
+
+def _gen(elt, x, it):
+    return ast.GeneratorExp(elt=elt, generators=[ast.comprehension(target=ast.Name(id=x, ctx=ast.Store()), iter=it,
+                                                                   ifs=[], is_async=0)])
+
+
+def normalise_loops(stmts: list) -> list:
+    """Three loop idioms are rewritten into the comprehension form they are equivalent to, so that writing them either
+    way gives the same translation (the loop variable must not be used after the loop):
+      for x in it: (if not c: return False) ; return True        ->  return all(c for x in it)
+      for x in it: (if c: raise E(..))                           ->  if any(c for x in it): raise E(..)
+      acc = init ; for x in it: (acc = acc * e | acc *= e) ; return acc   ->  return reduce(mul, (e for x in it), init)"""
+    out, i = [], 0
+    while i < len(stmts):
+        s, nxt = stmts[i], stmts[i + 1:i + 2]
+        lp = _loop(s)
+        if lp and len(lp[2]) == 1 and isinstance(lp[2][0], ast.If) and not lp[2][0].orelse and len(lp[2][0].body) == 1:
+            x, it, (iff,) = lp
+            inner, rest = iff.body[0], stmts[i + 1:]
+            if _const_return(inner, False) and nxt and _const_return(nxt[0], True) and len(rest) == 1 \
+                    and isinstance(iff.test, ast.UnaryOp) and isinstance(iff.test.op, ast.Not):
+                call = ast.Call(func=ast.Name(id="all", ctx=ast.Load()), args=[_gen(iff.test.operand, x, it)], keywords=[])
+                out.append(ast.Return(value=call))
+                i += 2
+                continue
+            if isinstance(inner, ast.Raise) and x not in _names_in(rest):
+                call = ast.Call(func=ast.Name(id="any", ctx=ast.Load()), args=[_gen(iff.test, x, it)], keywords=[])
+                out.append(ast.If(test=call, body=[inner], orelse=[]))
+                i += 1
+                continue
+        if isinstance(s, ast.Assign) and len(s.targets) == 1 and isinstance(s.targets[0], ast.Name) and nxt \
+                and _loop(nxt[0]) and len(stmts) == i + 3:
+            acc, (x, it, body), last = s.targets[0].id, _loop(nxt[0]), stmts[i + 2]
+            factor = None
+            if len(body) == 1 and isinstance(body[0], ast.AugAssign) and isinstance(body[0].op, ast.Mult) \
+                    and isinstance(body[0].target, ast.Name) and body[0].target.id == acc:
+                factor = body[0].value
+            elif len(body) == 1 and isinstance(body[0], ast.Assign) and len(body[0].targets) == 1 \
+                    and isinstance(body[0].targets[0], ast.Name) and body[0].targets[0].id == acc \
+                    and isinstance(body[0].value, ast.BinOp) and isinstance(body[0].value.op, ast.Mult) \
+                    and isinstance(body[0].value.left, ast.Name) and body[0].value.left.id == acc:
+                factor = body[0].value.right
+            if factor is not None and acc not in _names_in([factor, it]) and acc != x \
+                    and isinstance(last, ast.Return) and isinstance(last.value, ast.Name) and last.value.id == acc:
+                call = ast.Call(func=ast.Name(id="reduce", ctx=ast.Load()),
+                                args=[ast.Name(id="mul", ctx=ast.Load()), _gen(factor, x, it), s.value], keywords=[])
+                out.append(ast.Return(value=call))
+                i += 3
+                continue
+        out.append(s)
+        i += 1
+    return out
+
+
+_LOG_METHODS = ("debug", "info", "warning", "error", "exception", "critical", "log")
+
+
+def stdlib_loggers(tree: ast.AST) -> set:
+    """module-level names bound to `logging.getLogger(...)` / `getLogger(...)` (stdlib logging: calls of their
+    debug/info/... methods only emit log records; log output is outside every modelled result)"""
+    out = set()
+    for n in getattr(tree, "body", []):
+        if isinstance(n, ast.Assign) and len(n.targets) == 1 and isinstance(n.targets[0], ast.Name) \
+                and isinstance(n.value, ast.Call):
+            f = n.value.func
+            if (isinstance(f, ast.Attribute) and f.attr == "getLogger" and isinstance(f.value, ast.Name)
+                    and f.value.id == "logging") or (isinstance(f, ast.Name) and f.id == "getLogger"):
+                out.add(n.targets[0].id)
+    return out
+
+
 class Tr:
-    def __init__(self, fn: ast.FunctionDef, enums: dict[str, list[str]]):
-        self.fn, self.enums = fn, enums
+    def __init__(self, fn: ast.FunctionDef, enums: dict[str, list[str]], loggers=frozenset()):
+        self.fn, self.enums, self.loggers = fn, enums, loggers
         self.helpers = {s.name: s for s in fn.body if isinstance(s, ast.FunctionDef)}
         self.fresh = 0
 
@@ -276,13 +361,28 @@ class Tr:
     # ---------------------------------------------------------------- statements
     def block(self, stmts) -> list:
         out = []
-        for s in stmts:
+        for s in normalise_loops([s for s in stmts if not _is_docstring(s)]):
             out += self.stmt(s)
         return out
+
+    def is_log_call(self, s) -> bool:
+        """`<stdlib logger>.debug(<pure arguments>)` as a statement"""
+        if not (isinstance(s, ast.Expr) and isinstance(s.value, ast.Call)):
+            return False
+        c = s.value
+        return (isinstance(c.func, ast.Attribute) and c.func.attr in _LOG_METHODS and isinstance(c.func.value, ast.Name)
+                and c.func.value.id in self.loggers
+                and all(_simple(a) or isinstance(a, ast.JoinedStr) for a in c.args)
+                and all(_simple(k.value) for k in c.keywords))
 
     def stmt(self, s) -> list:  # noqa: C901, PLR0911, PLR0912
         if _is_docstring(s) or isinstance(s, (ast.Pass, ast.FunctionDef)):
             return []
+        if self.is_log_call(s):
+            return []
+        if isinstance(s, ast.Assert):
+            # `assert c[, msg]` is `if not c: raise AssertionError` (the message is not part of the modelled result)
+            return [("ite", ("not", self.expr(s.test)), [("raise", "AssertionError")], [])]
         if isinstance(s, ast.Assign):
             if len(s.targets) != 1:
                 raise TranslationError("chained assignment")
@@ -373,12 +473,38 @@ def normalise_names(params, body):
     return new_params, walk(body), names
 
 
-def translate_function(fn: ast.FunctionDef, enums) -> dict:
+def canonical_init_prefix(body: list) -> list:
+    """The leading run of initialisations with literals (`x = 0`, `a, b = 0, False`) is split into single assignments
+    and ordered by the first occurrence of the variable in the rest of the body: these statements are independent of
+    each other, so writing them in another order (or as one tuple assignment) is the same function - and, with the
+    numbering of `normalise_names`, then also the same translation."""
+    run, i = [], 0
+    while i < len(body):
+        s = body[i]
+        if s[0] == "assign" and s[2][0] == "lit":
+            run.append((s[1], s[2]))
+        elif s[0] == "unpack" and s[2][0] == "tuple" and len(s[1]) == len(s[2][1]) and all(e[0] == "lit" for e in s[2][1]):
+            run += list(zip(s[1], s[2][1]))
+        else:
+            break
+        i += 1
+    names = [n for n, _ in run]
+    if len(run) < 2 or len(set(names)) != len(names):     # noqa: PLR2004
+        return body
+    rest = body[i:]
+    first_use = {n: k for k, n in enumerate(normalise_names([], rest)[2])}
+    if any(n not in first_use for n in names):            # an unused variable: no canonical place for it
+        return body
+    run.sort(key=lambda nv: first_use[nv[0]])
+    return [("assign", n, v) for n, v in run] + rest
+
+
+def translate_function(fn: ast.FunctionDef, enums, loggers=frozenset()) -> dict:
     a = fn.args
     if a.vararg or a.kwarg or a.kwonlyargs or a.posonlyargs:
         raise TranslationError(f"{fn.name}: only plain positional parameters are supported")
-    tr = Tr(fn, enums)
-    params, body, names = normalise_names([p.arg for p in a.args], tr.block(fn.body))
+    tr = Tr(fn, enums, loggers)
+    params, body, names = normalise_names([p.arg for p in a.args], canonical_init_prefix(tr.block(fn.body)))
     return {"params": params, "body": body, "names": names}
 
 
@@ -398,7 +524,7 @@ def extract_funcs(src, funcs) -> dict:
     out = {}
     for lean, rel, path in funcs:
         fn, _ = find_def(tree(rel), path)
-        out[lean] = dict(translate_function(fn, enums), path=f"{rel}: {path}")
+        out[lean] = dict(translate_function(fn, enums, stdlib_loggers(tree(rel))), path=f"{rel}: {path}")
     return out
 
 
